@@ -404,7 +404,8 @@ def main(argv: Optional[List[str]] = None) -> int:
     # -- floors
     floor_fail = []
     floors = getattr(mod, "FLOORS", {})
-    if not errors and not viol:
+    screening = os.environ.get("VERIF_BUDGET_SCALE", "1") not in ("", "1")  # tools/mutant_sweep.py only
+    if not errors and not viol and not screening:
         for cname, frac in floors.items():
             denom_name = None
             if isinstance(frac, tuple):
